@@ -20,7 +20,7 @@ META["outside"] = c01.META["outside"] + ["escaping of < & \" ]]> and control cha
 
 # every builder except the ones whose field kinds the reference reading does not cover (generic wildcards / attribute maps, anyType values,
 # formatted temporal values, unions of models); value kinds it does not know raise NotImplementedError inside covered builders (monitor only then)
-NOT_REFERENCE = ["wild_text", "wild_attrs", "anytyped", "temporal", "unionmodels"]
+NOT_REFERENCE = ["wild_text", "wild_attrs", "anytyped", "temporal", "unionmodels", "renamed"]
 REFERENCE = [n for n in SPECS if n not in NOT_REFERENCE]
 SLEN = PART.get("slen", 2)
 IMAX = PART.get("imax", 100)
